@@ -228,7 +228,9 @@ pub fn main(args: &[String]) -> i32 {
             10 => 18_446_744_074, // ttl * 1e9 overflows: saturating arithmetic
             _ => 7,
         };
-        let ttl = if cfg.ttl { ttl } else { 0 };
+        // TTL-bearing calls are issued on TTL-disabled stores too: insert_with_ttl / update_ttl / get_ttl are refused
+        // (TtlNotEnabled); compare-and-swap and increment accept the argument and stamp an expiry that no call may act
+        // on while TTL is disabled (Store.tla: Expired needs cfg.ttl)
         let val: Vec<u8> = match rng.random_range(0..10) {
             0 | 1 => (rng.random_range(-5i64..50)).to_le_bytes().to_vec(),
             2 | 3 => format!("{{\"n\":{}}}", rng.random_range(0..9)).into_bytes(),
